@@ -59,6 +59,19 @@ def str_parse(ctx, args, st):
     s = str_of(st, args[0])
     if s.facts is not None and ('parse_' + ty) in s.facts:
         return ret(st, s.facts['parse_' + ty])
+    if s.facts is not None and ty in ('i8', 'i16', 'i32', 'u8', 'u16', 'u32', 'u64', 'usize', 'isize') and 'parse_i64' in s.facts:
+        # the text is known through what parse::<i64> says about it: a narrower integer type accepts it iff that value fits
+        r64 = s.facts['parse_i64']
+        if isinstance(r64, Adt) and r64.variant == 'Err' and ty not in ('u64', 'usize'):
+            return ret(st, Err(Opaque(('ParseIntError',))))
+        if isinstance(r64, Adt) and r64.variant == 'Ok' and isinstance(r64.items[0], Int):
+            v = r64.items[0]; bits, sg = INT_TYPES[ty]
+            lo, hi = (-(1 << (bits - 1)), (1 << (bits - 1)) - 1) if sg else (0, (1 << bits) - 1)
+            if hi <= (1 << 63) - 1:
+                def g():
+                    for s2, fits in ctx.ex.fork_bool(st, z3.And(v.e >= lo, v.e <= hi)):
+                        yield s2, 'ret', (Ok(ctx.ex.cast(v, ty, 'IntToInt', s2)) if fits else Err(Opaque(('ParseIntError',))))
+                return g()
     c = s.concrete()
     if c is None and ty in ('i64', 'usize', 'i32') and s.chars:
         return parse_int_symbolic(ctx, st, s, ty)
